@@ -13,6 +13,9 @@ REPO = "/repo"
 
 
 def main():
+    """Each canary runs on a scratch copy of /repo's source tree under $TMPDIR (removed afterwards); /repo is never written."""
+    import shutil
+    import tempfile
     prop = sys.argv[1]
     only = sys.argv[2] if len(sys.argv) > 2 else None
     cans = json.load(open(os.path.join(VERIF, "canaries", prop + ".json")))
@@ -20,18 +23,22 @@ def main():
     for c in cans:
         if only and only not in c["name"]:
             continue
-        path = os.path.join(REPO, c["file"])
-        orig = open(path).read()
-        if orig.count(c["old"]) != 1:
-            print(f"CANARY {prop}/{c['name']}: SKIP (anchor text occurs {orig.count(c['old'])} times)")
-            bad += 1
-            continue
+        scratch = tempfile.mkdtemp(prefix="pyvc_canary_")
         try:
+            shutil.copytree(os.path.join(REPO, "onnxscript"), os.path.join(scratch, "onnxscript"),
+                            ignore=shutil.ignore_patterns("__pycache__"))
+            path = os.path.join(scratch, c["file"])
+            orig = open(path).read()
+            if orig.count(c["old"]) != 1:
+                print(f"CANARY {prop}/{c['name']}: SKIP (anchor text occurs {orig.count(c['old'])} times)")
+                bad += 1
+                continue
             open(path, "w").write(orig.replace(c["old"], c["new"]))
             cmd = [os.path.join(VERIF, "vcheck"), prop, "--no-evidence"] + (["--only", c["only"]] if c.get("only") else [])
-            p = subprocess.run(cmd, capture_output=True, text=True)
+            env = dict(os.environ, PYVC_REPO=scratch, PYTHONPATH=scratch)
+            p = subprocess.run(cmd, capture_output=True, text=True, env=env)
         finally:
-            open(path, "w").write(orig)
+            shutil.rmtree(scratch, ignore_errors=True)
         viol = [l for l in p.stdout.splitlines() if l.startswith("VIOLATION")]
         failed = [l for l in p.stdout.splitlines() if l.startswith("FAILED-OBLIGATION")]
         if c["expect"] == "violation":
